@@ -42,6 +42,12 @@ ASSUMPTIONS = [
     "look quoted but are no valid literal may be refused",
     "geometry.row/col are not changed through run entry points (the buckets are already allocated)",
     "Arguments is probed directly (mapping/attribute assignment of an unknown name) because Processor.set masks it",
+    "interpretation: a valid key with an in-range native value (number, text, list, ndarray) must be applied, not "
+    "refused; has() must be True for every catalogued setting; a non-literal text without surrounding quotes must be "
+    "kept verbatim (refusing it counts as a violation); has() answering True for a non-setting is only counted",
+    "an accepted key whose components all name existing objects exactly (e.g. 'detector', a private alias) is "
+    "tolerated when it replaces exactly that object or the run then dies before any model; it is a violation when it "
+    "adds an attribute / dict entry or changes nothing and the pipeline still runs",
 ]
 REQUIRED_COUNTERS = [
     "valid_has_true", "valid_set_applied", "struct_diffs_checked", "public_diffs_checked", "readback_checked",
@@ -325,8 +331,6 @@ def gen_pipeline(rng, mapping_names=False) -> dict:
     if not any(not m["enabled"] for m in allm):
         g = rng.choice(list(pspec))
         pspec[g].append({"name": f"{g}_off", "func": PROBE, "arguments": {"a": 1, "n": 2, "lev": 0.5}, "enabled": False})
-    if sum(1 for m in allm if m["enabled"]) < 1 or len([m for ms in pspec.values() for m in ms if m["enabled"]]) < 1:
-        allm[0]["enabled"] = True
     if mapping_names:
         m = rng.choice([m for ms in pspec.values() for m in ms])
         m["arguments"][rng.choice(MAPPING_NAMES[:5])] = rng.randint(1, 9)
@@ -354,7 +358,7 @@ def gen_field_value(rng, spec):
     if typ == "int":
         v = rng.randint(lo, hi)
         form = rng.choice(["native", "text", "padded", "hex", "underscore", "plus", "np"])
-        return {"native": v, "text": str(v), "padded": f" {v} ", "hex": hex(v), "underscore": f"{v:_}" if v < 1000 else f"{v:_}",
+        return {"native": v, "text": str(v), "padded": f" {v} ", "hex": hex(v), "underscore": f"{v:_}",
                 "plus": f"+{v}", "np": np.int64(v)}[form], form != "np"
     if typ == "float":
         span = hi - lo
@@ -439,7 +443,7 @@ def edit_component(rng, comp: str) -> str:
     return comp[:p] + c + comp[p + 1:]
 
 
-def mutate_keys(rng, kind, pspec, vkeys, per_base=True) -> list:
+def mutate_keys(rng, kind, pspec, vkeys) -> list:
     out = []
     keys = list(vkeys)
     bases = rng.sample(keys, min(5, len(keys)))
@@ -641,7 +645,23 @@ def snap_all(pr, seen=None) -> dict:
                 extra[f"<xarray>{hpath}.{k}"] = repr(v)
     out = snapshot.snap({"proc": pr}, seen=seen, skip=set(snapshot.SKIP_ATTRS) | names)
     out.update(extra)
-    return out
+    return expand_tuple_refs(out)
+
+
+def expand_tuple_refs(snap: dict) -> dict:
+    """The walker prints a second reference to the same object as '<ref path>'.  Tuples are immutable and
+    CPython shares them (the empty tuple is a singleton), so two settings holding equal tuples are not an
+    aliasing fact: replace such references by the content they point to."""
+    for _ in range(4):
+        refs = [(p, v[5:-1]) for p, v in snap.items() if isinstance(v, str) and v.startswith("<ref ")
+                and snap.get(v[5:-1] + "/<len>", "").startswith("tuple:")]
+        if not refs:
+            break
+        for p, target in refs:
+            del snap[p]
+            for k in [k for k in snap if k.startswith(target) and k[len(target):][:1] in ("/", "[", ".")]:
+                snap[p + k[len(target):]] = snap[k]
+    return snap
 
 
 def make_processor(dspec, pspec):
@@ -658,7 +678,7 @@ def owner_prefixes(pr, info, seen):
     return seen.get(id(m.arguments)), None, f"[{info['arg']!r}]"
 
 
-def judge_value(got, kind_exp, alts):
+def judge_value(got, _kind, alts):
     return any(same(got, alt) for alt in alts)
 
 
@@ -1275,7 +1295,7 @@ def run_shard(spec, rec):
 
 
 def plan(tier, seed):
-    n = 5 if tier == "quick" else 150
+    n = 5 if tier == "quick" else 60
     return [{"shard": s, "seed": seed, "kind": "random", "n": n, "calib": tier != "quick" or s % 4 == 0,
              "n_texts": 14 if tier == "quick" else 30} for s in range(16)]
 
